@@ -518,6 +518,171 @@ theorem looppart_delivers (hrel : EnvRel TPx sets X.env X.se) {i : Nat} {s : VMS
       (fun h => by cases h) (by simp only [body, hop, modeOf, hb, hb2]) (fun h => by cases h) (by show (decode (opSetloopatomic ||| bits false ci)).rtl = _; rw [hdec]) hpred hf
     exact this
 
+/-- the fixed part `rep x lo` -/
+theorem reppart_delivers (hrel : EnvRel TPx sets X.env X.se) {i : Nat} {s : VMState} (hi : i ≤ X.se.n)
+    (he : Entry X a i T S C s) {r sel lo : Nat} {ci : Bool} {x : Int} {P : Pred}
+    (hr : (r = opOnerep ∧ sel = 0) ∨ (r = opNotonerep ∧ sel = 1) ∨ (r = opSetrep ∧ sel = 2))
+    (hia : InstrAt X.p a (i2 (r ||| bits false ci) x (lo : Int))) (hpred : PredOk X sel x P)
+    (hf : ∃ w, VM.fetch X.p (a + 3) = .ok w) :
+    Delivers X (a + 3) T S S C (if lo ≤ runLen X.se P i then [⟨i + lo, C⟩] else []) s := by
+  rcases hr with ⟨rfl, rfl⟩ | ⟨rfl, rfl⟩ | ⟨rfl, rfl⟩
+  · have hoper : s.oper = ⟨opOnerep, false, false, false, ci⟩ := by
+      rw [he.oper hia]; exact (decode_bits opOnerep (by decide) false ci).2
+    have hop : Op.ofNat? s.oper.op = some .onerep := by rw [hoper]; rfl
+    have hb : s.oper.back = false := by rw [hoper]
+    have hb2 : s.oper.back2 = false := by rw [hoper]
+    exact rep_delivers hrel hi he hia rfl rfl (by simp only [body, hop, modeOf, hb, hb2]) (by rw [hoper]) hpred hf
+  · have hoper : s.oper = ⟨opNotonerep, false, false, false, ci⟩ := by
+      rw [he.oper hia]; exact (decode_bits opNotonerep (by decide) false ci).2
+    have hop : Op.ofNat? s.oper.op = some .notonerep := by rw [hoper]; rfl
+    have hb : s.oper.back = false := by rw [hoper]
+    have hb2 : s.oper.back2 = false := by rw [hoper]
+    exact rep_delivers hrel hi he hia rfl rfl (by simp only [body, hop, modeOf, hb, hb2]) (by rw [hoper]) hpred hf
+  · have hoper : s.oper = ⟨opSetrep, false, false, false, ci⟩ := by
+      rw [he.oper hia]; exact (decode_bits opSetrep (by decide) false ci).2
+    have hop : Op.ofNat? s.oper.op = some .setrep := by rw [hoper]; rfl
+    have hb : s.oper.back = false := by rw [hoper]
+    have hb2 : s.oper.back2 = false := by rw [hoper]
+    exact rep_delivers hrel hi he hia rfl rfl (by simp only [body, hop, modeOf, hb, hb2]) (by rw [hoper]) hpred hf
+
+/-- the operand of the variable part, as a number of characters -/
+def varMax (m n : Int) : Nat := if n > m then (repArg m n).toNat else 0
+
+theorem capN_arith {m n : Int} {R N : Nat} (h0 : 0 ≤ m) (hmn : m ≤ n) (hn : n ≤ maxInt32) (hR : R ≤ N)
+    (hN : N ≤ 2147483647) (hlo : m.toNat ≤ R) :
+    capN (hiOf n) 0 R + 1 - m.toNat = min (varMax m n) (R - m.toNat) + 1 := by
+  unfold varMax hiOf repArg maxInt32 at *
+  by_cases hmax : n = 2147483647
+  · subst hmax
+    simp only [beq_self_eq_true, if_true, capN]
+    split <;> omega
+  · have : (n == 2147483647) = false := by simpa using hmax
+    simp only [this, Bool.false_eq_true, if_false, capN]
+    split <;> omega
+
+theorem capN_small {m n : Int} {R : Nat} (hlo : ¬ m.toNat ≤ R) : capN (hiOf n) 0 R + 1 - m.toNat = 0 := by
+  unfold hiOf capN
+  split <;> omega
+
+theorem kinds_excl : ∀ t ∈ charloopTypes ++ setloopTypes, ¬ (isAtomicT t = true ∧ isLazyT t = true) := by decide
+
+/-- the specification of a single-character loop node, as the two instructions compute it -/
+theorem m_loopPat (e : Spec.Env) {t : Nat} (ht : t ∈ charloopTypes ++ setloopTypes) {m n : Int} (P : Pred) (i : Nat)
+    (C : List (Nat × Nat × Nat)) (h0 : 0 ≤ m) (hmn : m ≤ n) (hn : n ≤ maxInt32) (hN : e.n ≤ 2147483647) :
+    Spec.m e (loopPat t m n (.chr P)) false ⟨i, C⟩ =
+      (if m.toNat ≤ runLen e P i then [(⟨i + m.toNat, C⟩ : St)] else []).flatMap
+        (fun r => kindList t r.pos (min (varMax m n) (runLen e P r.pos)) r.caps) := by
+  have hR := runLen_le e P i
+  have hgreedy : Spec.m e (.quant false m.toNat (hiOf n) (.chr P)) false ⟨i, C⟩ =
+      if m.toNat ≤ runLen e P i then downFrom (i + m.toNat) (min (varMax m n) (runLen e P (i + m.toNat))) C else [] := by
+    rw [charloop_successes]
+    by_cases hlo : m.toNat ≤ runLen e P i
+    · rw [if_pos hlo, capN_arith h0 hmn hn (show runLen e P i ≤ e.n by omega) hN hlo, runLen_add e P _ _ hlo]
+      rfl
+    · rw [if_neg hlo, capN_small hlo]; rfl
+  have hlazy : Spec.m e (.quant true m.toNat (hiOf n) (.chr P)) false ⟨i, C⟩ =
+      if m.toNat ≤ runLen e P i then
+        ⟨i + m.toNat, C⟩ :: upFrom (i + m.toNat) (min (varMax m n) (runLen e P (i + m.toNat))) C else [] := by
+    rw [lazy_charloop_successes]
+    by_cases hlo : m.toNat ≤ runLen e P i
+    · rw [if_pos hlo, capN_arith h0 hmn hn (show runLen e P i ≤ e.n by omega) hN hlo, runLen_add e P _ _ hlo]
+      rw [List.range_succ_eq_map]
+      simp only [List.map_cons, List.map_map, Nat.add_zero, upFrom, List.cons.injEq, true_and]
+      apply List.map_congr_left
+      intro j _
+      simp only [Function.comp, St.mk.injEq, and_true]
+      omega
+    · rw [if_neg hlo, capN_small hlo]; rfl
+  unfold loopPat kindList
+  have hex := kinds_excl t ht
+  by_cases hat : isAtomicT t = true
+  · have hlz : isLazyT t = false := by
+      cases h : isLazyT t
+      · rfl
+      · exact absurd ⟨hat, h⟩ hex
+    simp only [hat, if_true, hlz, m_atomic, hgreedy]
+    split
+    · simp only [List.flatMap_cons, List.flatMap_nil, List.append_nil]
+      generalize min (varMax m n) (runLen e P (i + m.toNat)) = k
+      cases k with
+      | zero => simp [downFrom_zero]
+      | succ k => rw [downFrom_succ]; simp
+    · simp
+  · have hat' : isAtomicT t = false := by simpa using hat
+    simp only [hat', Bool.false_eq_true, if_false]
+    by_cases hlz : isLazyT t = true
+    · simp only [hlz, if_true, hlazy]
+      split <;> simp
+    · have hlz' : isLazyT t = false := by simpa using hlz
+      simp only [hlz', Bool.false_eq_true, if_false, hgreedy]
+      split <;> simp
+
+theorem kindList_zero (t i : Nat) (C : List (Nat × Nat × Nat)) : kindList t i 0 C = [⟨i, C⟩] := by
+  unfold kindList
+  split
+  · rfl
+  · split
+    · simp [upFrom]
+    · exact downFrom_zero i C
+
+theorem charloop_families : ∀ t ∈ charloopTypes,
+    (isOneFamily t = true ∧ selOf t = 0 ∧ isNotoneFamily t = false) ∨
+    (isOneFamily t = false ∧ selOf t = 1 ∧ isNotoneFamily t = true) := by decide
+
+theorem setloop_family : ∀ t ∈ setloopTypes, selOf t = 2 := by decide
+
+/-- **a single-character loop node**: `rep x m` (when `m > 0`) followed by `t x (n − m)` (when `n > m`) -/
+theorem loopnode_delivers (hrel : EnvRel TPx sets X.env X.se) (hN : X.se.n ≤ 2147483647) {i : Nat} {s : VMState}
+    (hi : i ≤ X.se.n) (he : Entry X a i T S C s) {t r sel : Nat} {ci : Bool} {x m n : Int} {P : Pred}
+    (ht : t ∈ charloopTypes ++ setloopTypes) (hselv : sel = selOf t)
+    (hr : (r = opOnerep ∧ sel = 0) ∨ (r = opNotonerep ∧ sel = 1) ∨ (r = opSetrep ∧ sel = 2))
+    (h0 : 0 ≤ m) (hmn : m ≤ n) (hn : n ≤ maxInt32)
+    (hcode : CodeAt X.p a ((if m > 0 then [i2 (r ||| bits false ci) x m] else []) ++
+      (if n > m then [i2 (t ||| bits false ci) x (repArg m n)] else [])))
+    (hpred : (m > 0 ∨ n > m) → PredOk X sel x P) :
+    Delivers X (a + repLen m n) T S S C (Spec.m X.se (loopPat t m n (.chr P)) false ⟨i, C⟩) s := by
+  rw [m_loopPat X.se ht P i C h0 hmn hn hN]
+  have hR := runLen_le X.se P i
+  have hmid : Delivers X (a + (if m > 0 then 3 else 0)) T S S C
+      (if m.toNat ≤ runLen X.se P i then [(⟨i + m.toNat, C⟩ : St)] else []) s := by
+    by_cases hm : m > 0
+    · have hc1 := hcode.left'
+      rw [if_pos hm] at hc1 ⊢
+      have hia := hc1.instr
+      have hcast : ((m.toNat : Nat) : Int) = m := by omega
+      rw [← hcast] at hia
+      exact reppart_delivers hrel hi he hr hia (hpred (Or.inl hm)) (by simpa using hc1.fetch_end)
+    · have : m.toNat = 0 := by omega
+      rw [if_neg hm, this]
+      simp only [Nat.zero_le, if_true, Nat.add_zero]
+      exact Delivers.single (Leads.here he) rfl
+  refine (Delivers.bind (X := X) (b := a + (if m > 0 then 3 else 0) + (if n > m then 3 else 0)) _ s hmid ?_).cast
+    (by unfold repLen; omega) rfl
+  intro r' hr' F s' _ he'
+  have hr'eq : r' = ⟨i + m.toNat, C⟩ ∧ m.toNat ≤ runLen X.se P i := by
+    split at hr'
+    · next h => simp at hr'; exact ⟨hr', h⟩
+    · simp at hr'
+  obtain ⟨rfl, hlo⟩ := hr'eq
+  have hc2 := hcode.right
+  have hlen1 : codeLen (if m > 0 then [i2 (r ||| bits false ci) x m] else []) = if m > 0 then 3 else 0 := by
+    split <;> simp
+  rw [hlen1] at hc2
+  by_cases hnm : n > m
+  · rw [if_pos hnm] at hc2 ⊢
+    have hia := hc2.instr
+    have hcast : (((repArg m n).toNat : Nat) : Int) = repArg m n := by
+      unfold repArg maxInt32 at *; split <;> omega
+    rw [← hcast] at hia
+    have hv : varMax m n = (repArg m n).toNat := by simp [varMax, hnm]
+    rw [hv]
+    exact looppart_delivers hrel (show i + m.toNat ≤ X.se.n by omega) he' ht hselv hia (hpred (Or.inr hnm))
+      (by simpa using hc2.fetch_end)
+  · have hv : varMax m n = 0 := by simp [varMax, hnm]
+    rw [if_neg hnm, hv]
+    simp only [Nat.zero_min, kindList_zero, Nat.add_zero]
+    exact Delivers.single (Leads.here he') rfl
+
 end loops
 
 end RegexVerif.Compile
